@@ -18,6 +18,7 @@ ops (body = list of ops):
   ["raise", bid] ["return"]
   ["cleanup", body, k, after]    try body / except cancel: k shielded cps; "reraise"|"boom"
   ["catch_then", body, then]     try body / except cancel: then (unshielded); re-raise
+  ["catch_then", body, then, "fresh"]  ... but raise a fresh CancelledError() instead
   ["catch_mix", body, bid]       try body / except cancel as c: raise ExceptionGroup([c, Boom])
   ["started", v]                 task_status.started(v)    (only inside a start child)
   ["await_handle", tid, how]     how = "wait" | "await"
@@ -520,13 +521,20 @@ class Run:
 
                     raise
             elif kind == "catch_then":
-                _, body, then = op
+                _, body, then, *how = op
                 try:
                     await self.run_ops(tid, body, ctx)
                 except asyncio.CancelledError:
                     self.ev(tid, "caught-cancel")
                     self.window("cancel_caught_then_continued")
                     await self.run_ops(tid, then, ctx)
+                    if how == ["fresh"]:
+                        # what some frameworks do: a NEW CancelledError, chained to the
+                        # caught one only implicitly (__context__); AnyIO still has to
+                        # recognise its own cancellation in it at the scope's exit
+                        self.window("cancellation_replaced_by_a_fresh_implicitly_chained_one")
+                        raise asyncio.CancelledError()  # noqa: B904
+
                     raise
             elif kind == "catch_mix":
                 # re-raise a caught cancellation inside a synthetic exception group next to
